@@ -1,0 +1,125 @@
+//go:build verif
+
+// Contracts for duct (property C16). Comment-only file: see /verif/DESIGN.md sections 3
+// (memory abstraction 3) and 6/C16.
+//
+// The AST is an exclusively owned tree: every node is created by &T{...}, moved into exactly
+// one place and never duplicated (the property restricts to programs in which each
+// intermediate morphism is used once). Pointers to AstSeq/AstMap/AstFrom/AstYield are
+// therefore values and Ast is their sum type; append/unit update their receiver in place.
+
+package duct
+
+//@ fileprops C16
+//@ smt valuetree Ast AstSeq AstMap AstFrom AstYield
+
+// every callback appends one event to the visit trace; the error it returns may depend on
+// its position in the visit (every callback position is a possible failure point)
+//@ interface Visitor
+//@   method OnEnterMorphism
+//@     modifies vtrace
+//@     ensures vtrace == snoc(old(vtrace), vev(1, $1, asnode($2))) && result == cberr(self, len(old(vtrace)))
+//@   method OnLeaveMorphism
+//@     modifies vtrace
+//@     ensures vtrace == snoc(old(vtrace), vev(0 - 1, $1, asnode($2))) && result == cberr(self, len(old(vtrace)))
+//@   method OnEnterSeq
+//@     modifies vtrace
+//@     ensures vtrace == snoc(old(vtrace), vev(2, $1, asnode($2))) && result == cberr(self, len(old(vtrace)))
+//@   method OnLeaveSeq
+//@     modifies vtrace
+//@     ensures vtrace == snoc(old(vtrace), vev(0 - 2, $1, asnode($2))) && result == cberr(self, len(old(vtrace)))
+//@   method OnEnterMap
+//@     modifies vtrace
+//@     ensures vtrace == snoc(old(vtrace), vev(3, $1, asnode($2))) && result == cberr(self, len(old(vtrace)))
+//@   method OnLeaveMap
+//@     modifies vtrace
+//@     ensures vtrace == snoc(old(vtrace), vev(0 - 3, $1, asnode($2))) && result == cberr(self, len(old(vtrace)))
+//@   method OnEnterFrom
+//@     modifies vtrace
+//@     ensures vtrace == snoc(old(vtrace), vev(4, $1, asnode($2))) && result == cberr(self, len(old(vtrace)))
+//@   method OnLeaveFrom
+//@     modifies vtrace
+//@     ensures vtrace == snoc(old(vtrace), vev(0 - 4, $1, asnode($2))) && result == cberr(self, len(old(vtrace)))
+//@   method OnEnterYield
+//@     modifies vtrace
+//@     ensures vtrace == snoc(old(vtrace), vev(5, $1, asnode($2))) && result == cberr(self, len(old(vtrace)))
+//@   method OnLeaveYield
+//@     modifies vtrace
+//@     ensures vtrace == snoc(old(vtrace), vev(0 - 5, $1, asnode($2))) && result == cberr(self, len(old(vtrace)))
+
+// visiting a node: enter, the children one level deeper in order, leave - stopping at the
+// first callback that returns an error, which is returned (walkT / walkE)
+//@ interface Ast
+//@   method Apply
+//@     requires $2 != nil
+//@     modifies vtrace
+//@     ensures bracketed_visit: vtrace == walkT($2, self, $1, old(vtrace))
+//@     ensures first_error_is_returned: result == walkE($2, self, $1, old(vtrace))
+
+//@ type AstFrom implements Ast
+//@ type AstMap implements Ast
+//@ type AstYield implements Ast
+//@ type AstSeq implements Ast
+
+//@ func (AstSeq) Apply
+//@   opt via=subtype
+//@   opt overflow=off
+//@   requires v != nil
+//@   modifies vtrace
+//@   ensures vtrace == walkT(v, asnode(self), depth, old(vtrace)) && result == walkE(v, asnode(self), depth, old(vtrace))
+//@   loop 0 invariant cberr(v, len(old(vtrace))) == nil
+//@   loop 0 invariant walkKT(v, rest, depth + 1, vtrace) == walkKT(v, n.Seq, depth + 1, snoc(old(vtrace), vev(nodekind(asnode(n)), depth, asnode(n))))
+//@   loop 0 invariant walkKE(v, rest, depth + 1, vtrace) == walkKE(v, n.Seq, depth + 1, snoc(old(vtrace), vev(nodekind(asnode(n)), depth, asnode(n))))
+
+// append: the node lands in the innermost still-open context; unit closes the innermost open one
+//@ func (*AstSeq) append
+//@   opt lemmas=nth_last,upd_last,upd_same
+//@   opt slices=owned
+//@   opt overflow=off
+//@   ensures accepted_iff_open: result == old(self).Deferred
+//@   ensures lands_in_innermost_open_context: self == ins(old(self), n)
+
+//@ func (*AstSeq) unit
+//@   opt lemmas=nth_last,upd_last,upd_same
+//@   opt slices=owned
+//@   opt overflow=off
+//@   ensures done_iff_open: result == old(self).Deferred
+//@   ensures closes_innermost_open_context: self == closeinner(old(self))
+
+// recorded type names are duct.TypeOf of the step's own type parameters
+//@ func typeName
+//@   ensures result == tname(t)
+//@ func TypeOf
+//@   ensures result == tname(rtypeof(T))
+
+//@ func (Morphism) Apply
+//@   requires v != nil
+//@   modifies vtrace
+//@   ensures vtrace == walkT(v, asnode(self.code), 0, old(vtrace)) && result == walkE(v, asnode(self.code), 0, old(vtrace))
+
+// builders: wfroot (root, open) is established by From and preserved by every combinator,
+// so that an appended node is never dropped
+//@ pred wfroot(c) = c.Root && c.Deferred
+//@ func From
+//@   ensures wfroot(result.code)
+//@   ensures one_root_with_the_source: result.code == ins(mkseq(true, true), asnode(mkfrom(tname(rtypeof(A)), source.v)))
+//@ func Join
+//@   requires wfroot(m.code)
+//@   ensures wfroot(result.code)
+//@   ensures step_lands_in_innermost_open_context: result.code == ins(m.code, asnode(mkmap(tname(rtypeof(B)), tname(rtypeof(C)), f.f)))
+//@ func LiftF
+//@   requires wfroot(m.code)
+//@   ensures wfroot(result.code)
+//@   ensures opens_nested_context_with_the_step: result.code == ins(m.code, asnode(ins(mkseq(false, true), asnode(mkmap(tname(rtypeof(B)), tname(rtypeof(C)), f.f)))))
+//@ func WrapF
+//@   requires wfroot(m.code)
+//@   ensures wfroot(result.code)
+//@   ensures opens_empty_nested_context: result.code == ins(m.code, asnode(mkseq(false, true)))
+//@ func Unit
+//@   requires wfroot(m.code)
+//@   ensures wfroot(result.code)
+//@   ensures closes_innermost_open_context: result.code == closeinner(m.code)
+//@ func Yield
+//@   requires wfroot(m.code)
+//@   ensures wfroot(result.code)
+//@   ensures step_lands_in_innermost_open_context: result.code == ins(m.code, asnode(mkyield(tname(rtypeof(B)), target.v)))
